@@ -22,6 +22,9 @@ RULES = {
     'R14': ('r14_term', 'TERM: evaluator recursion/loops have a structural termination argument'),
     'R19': ('r19_flow', 'FLOW/T9: evaluator skeleton and set-operator construction'),
     'R17': ('r17_tables', 'TABLE: decision tables of small pure functions equal the reference tables'),
+    'R15': ('r15_loaders', 'LOADERS: every input element reaches the model; entry points one tuple per asset'),
+    'R16': ('r16_txn', 'TXN: neo4j ingestion: node per element, mirrored relationships, commit'),
+    'R22': ('r22_memo', 'MEMO: a memo cache is keyed by everything the value depends on'),
     'R8': ('r08_codec', 'CODEC: writer and reader tables of the dict codecs agree'),
 }
 
@@ -127,7 +130,7 @@ def _p(pid, title, rules, decided, undecided, anchors=(), floor=1, extra_assumpt
 
 
 _p('C01', 'Attack-graph edges are exactly the MAL meaning of the step expressions',
-   ['R1', 'R2', 'R12', 'R8', 'R14', 'R19'],
+   ['R1', 'R2', 'R12', 'R8', 'R14', 'R19', 'R22'],
    decided=['R1: the evaluator never removes from a list it iterates (set operators, sub-type '
             'filter, recursion through callee summaries)',
             'R2: every child link created by generation is mirrored by the converse parent link on '
@@ -157,7 +160,7 @@ _p('C02', 'One node per asset x step, with attributes faithful to model and lang
    anchors=[('R3', 'AttackGraph.add_node'), ('R4', 'AttackGraph.add_node'), ('R4', 'Model.add_asset')])
 
 _p('C03', 'Step inheritance resolves override/extend correctly and the lookup is pure',
-   ['R6', 'R3'],
+   ['R6', 'R3', 'R22'],
    decided=['R6: no in-place mutation anywhere in the package has a receiver that may be owned by the '
             'loaded specification (whole-package points-to; deepcopy results tracked per key), so '
             'lookups, language-graph and attack-graph generation leave the specification unmodified '
@@ -199,7 +202,7 @@ _p('C05', 'The instance model stays coherent under any history of edits',
             ('R5', 'Model.remove_asset_from_association')])
 
 _p('C07', 'Saving and loading a model preserves it (JSON and YAML)',
-   ['R8', 'R4'],
+   ['R8', 'R4', 'R15'],
    decided=['R8 i-ii: every key Model._to_dict (with asset/association/attacker_to_dict) writes is read by '
             '_from_dict and every key read unguarded is written unconditionally',
             'R8 iii: conversions invert per declared field type; asset / attacker ids that travelled as mapping '
@@ -311,7 +314,7 @@ _p('C14', 'A deep copy of an attack graph is equal and fully independent',
             ('R7', 'AttackGraph.__deepcopy__')], floor=20)
 
 _p('C16', 'Graph generation is deterministic and does not disturb its inputs',
-   ['R6'],
+   ['R6', 'R22'],
    decided=['R6: generation, analysis and lookups never mutate an object that may be owned by the loaded '
             'language specification'],
    undecided=['determinism across hash seeds (rule R10, not built yet)', 'third-party internals',
@@ -340,6 +343,32 @@ _p('C15', 'Language graph mirrors the language and over-approximates every attac
    anchors=[('R2', 'LanguageGraph._generate_graph'), ('R3', 'LanguageGraph.regenerate_graph'),
             ('R9', 'LanguageGraph._generate_graph'), ('R12', 'LanguageGraph.process_step_expression'),
             ('R12', 'LanguageGraph.reverse_dep_chain')])
+
+
+_p('C18', 'Legacy model loaders agree with the native loader',
+   ['R15', 'R4', 'R8', 'R22'],
+   decided=['R15 EVERY: in the 0.0.39 loader and the securiCAD loader every iteration over assets, defenses, '
+            'association fields, associations, attackers and entry points reaches a model sink (add_asset / '
+            'setattr / add_association / add_attacker / entry point) or leaves by return/raise - no element is '
+            'silently skipped (the native loader is held to the same rule)',
+            'R15 ENTRY: entry points go through add_entry_point or one tuple per key of the entry_points mapping',
+            'R4: the shared adders honour explicit ids (0, negative) ; R8iii: ids that travelled as mapping keys are '
+            'int()-ed in the 0.0.39 loader; R8vii: association sub-entry names use one template'],
+   undecided=['the securiCAD field/asset swap convention', 'value equality with the native model'],
+   anchors=[('R15', 'load_model_from_version_0_0_39._process_model'), ('R15', 'load_model_from_scad_archive'),
+            ('R8', 'load_model_from_version_0_0_39._process_model')], floor=8)
+
+_p('C19', 'Neo4j export is isomorphic to what is exported, and import inverts it',
+   ['R16', 'R15', 'R22'],
+   decided=['R16a: one database node per asset / attack step, collected under a guarded-unique key',
+            'R16b: relationships are accumulated without loss; each linked pair yields two relationships with '
+            'swapped end points and the two field labels; one relationship per child edge',
+            'R16c: everything built reaches Subgraph, and begin -> create -> commit on every path',
+            'R16d: the node properties get_model reads are the ones ingest_model writes',
+            'R15: get_model transfers every row into the model and adds entry points per asset',
+            'R22: lookups memoised during import are keyed by all their arguments'],
+   undecided=['py2neo behaviour', 'label direction semantics of the Cypher queries'],
+   anchors=[('R16', 'ingest_model'), ('R16', 'ingest_attack_graph'), ('R15', 'get_model')], floor=8)
 
 
 # --------------------------------------------------------------------------- manifest
